@@ -40,7 +40,12 @@ CONFIG = dict(
                "owner_map_agrees), a PushMsg aimed at a removed session's id reaches nobody while the other ids of the same push are served "
                "(push_after_remove_reaches_nobody; what id reuse inside a lifetime would do: id_reuse_hijacks_entry); the session AddSession announces is "
                "registered under the announced id from the moment the handler is told of it, so a lookup, Kick(id) or PushMsg([id]) made from inside "
-               "OnSessionAdd acts on this very session (added_session_is_live). A client that never half-closes gets the same messages through as one that "
+               "OnSessionAdd acts on this very session (added_session_is_live). KICK REQUESTS (ClientSessions.Kick / IKickHandler / DoKick): Kick(id) of a "
+               "registered connection closes its session (no handler set) or hands the id to the custom kick handler; the handler's later DoKick(id) closes that "
+               "same session and leaves the table alone, so the RemoveSession posted by the Close finds the entry, runs the registered close callback once, then the "
+               "sessions' callback, and the id is gone afterwards (kick_handler_path_still_removes); a Kick/DoKick for an id nobody holds any more reaches nobody "
+               "(kick_of_unregistered_id_reaches_nobody); a DoKick that deletes the entry itself loses the removal and every close callback, for every table "
+               "(defect witness dokick_deleting_entry_loses_remove). A client that never half-closes gets the same messages through as one that "
                "does: an open stream leaves the reader parked in Read instead of failing (framing_open_stream_same_messages, framing_open_delivers_all_packets). The pre-fix reader (D6) and the pre-fix owner (D15) are kept as definitions with witness theorems. The model is tied "
                "to the Go code on every run: the real ClientSession + pomelo.SessionsImpl + impls.ClientSessions (+ HandlerComponent close callbacks) run over a "
                "scripted PlayerConn with every goroutine parked at harness gates; after every grant status, thread positions, conn.Close count, writes, the "
@@ -48,7 +53,12 @@ CONFIG = dict(
                "implementation's own observations (incl. a lower bound: messages of decodable frames handed to a Working session that nothing closed "
                "must have been posted). The real TCPAcceptor is driven over 127.0.0.1 with byte streams that arrive in 1-4 pieces cut inside headers, "
                "between header and body, inside bodies and at random offsets, and with bodies larger than the socket buffers; the model frames the same "
-               "stream (Framing.framesOf) and the predicate demands every complete message sent after the handshake. Simultaneous independent close causes "
+               "stream (Framing.framesOf) and the predicate demands every complete message sent after the handshake; every data message's payload is a function "
+               "of its id and the owner's handler compares route and payload of each message, at the moment it is handed it, with what the client sent under that id "
+               "(`pl`), on half of the connections with a BUSY owner (a task of its scheduler does not return until the reader has posted everything the stream "
+               "holds, so all packets are received while the earlier messages wait in the owner's queue). 1/5 of the bubble cases run with a custom kick handler "
+               "(notice pushed at once, id kept, DoKick by a later `dokick` grant - with messages still queued, after the client left, from inside OnSessionAdd); "
+               "the predicate demands that a Kick (no handler) / DoKick of an id registered for a live session closes it. Simultaneous independent close causes "
                "(K Close() calls + client EOF + write failure on each of hundreds of fresh real sessions) are released together from a spin barrier, and - "
                "deterministically - made to arrive while Close's critical section is occupied (the harness holds the session's own mutex until all of them "
                "are queued at it), two pusher goroutines per session pushing beside them: exactly one OnSessionClose and one conn.Close per session, no panic (a racing "
@@ -68,7 +78,8 @@ CONFIG = dict(
                "interleaved individually in the separate CloseFine model, whose theorems cover the close-once / returned-means-closed / racing-push clauses at statement level; "
                "CloseFine is not a refinement of the session model - the intermediate effects are visible to the reader's status test and the heartbeat - and is tied to "
                "the code by the race op only, not grant by grant); TCP framing is a separate byte-level model (Framing) whose messages feed the session model in the tcp engine - body "
-               "bytes are abstracted to their length, message decoding is C06's; the bubble engine still works on frame/decode-error/read-error items; the "
+               "bytes are abstracted to their length, message decoding is C06's (that a message is handled with the bytes it was sent with - no aliasing of a receive "
+               "buffer between the reader and the owner's queue - is not a model fact: it is observed by the tcp/ws engines only, `pl`); the bubble engine still works on frame/decode-error/read-error items; the "
                "WebSocket acceptor is driven with whole connections (one packet per message, fragmented messages, two packets glued into one message, "
                "garbage messages) and one stalled-writer scenario, its GetNextMessage is Framing.wsNext; the websocket protocol layer itself (gorilla) is "
                "trusted; the termination theorems are about the model's threads (a goroutine "
@@ -88,6 +99,7 @@ CONFIG = dict(
                        "push_after_remove_reaches_nobody", "added_session_is_live",
                        "framing_open_stream_same_messages", "framing_open_delivers_all_packets",
                        "close_callbacks_run_once", "close_callback_of_other_session_untouched", "panicking_close_callback_ends_removal",
+                       "kick_handler_path_still_removes", "kick_of_unregistered_id_reaches_nobody", "dokick_deleting_entry_loses_remove",
                        "close_statement_level_once", "close_returned_means_closed", "close_statement_level_terminates",
                        "push_racing_close_never_enqueues", "close_without_retest_crashes"],
     harness_pkg="./c05",
@@ -104,14 +116,16 @@ CONFIG = dict(
     rule="each case: 1-3 simultaneous connections, 4-40 grants chosen from what the harness sees of the real sessions (inputs: handshake / ack / data frames "
          "with 1-6 packets incl. undecodable messages, heartbeats, kick packets, bad JSON, undecodable frames, empty frames, read errors, EOF; 1/7 of the connections have a handler that kicks the session / pushes to its id from inside OnSessionAdd; reader grants "
          "run-to-block or step-to-next-message with optional handshake-write failure; writer grants ok/fail; clock advances at and around the 10 s tick and the "
-         "20 s expiry; direct and owner-side kicks; owner-side and direct pushes; owner drains; 2 % probably-disabled ops), then `end`; 1/12 of the cases start the "
+         "20 s expiry; direct and owner-side kicks; 1/5 of the cases with a custom kick handler on the owner's ClientSessions (kick requests push a notice and are kept; `dokick` = "
+         "the handler's DoKick of the oldest kept id); owner-side and direct pushes; owner drains; 2 % probably-disabled ops), then `end`; 1/12 of the cases start the "
          "id counter at the 32-bit wrap; 1/25 of the cases may fill a send queue (non-reading client: writer parked in Write, 9999 pushes, heartbeat tick parks in its send) and then run every "
          "step as arm/go so that a process death leaves a replayable witness; 1/6 of the connections have a scripted panicking close callback; "
-         "corpus of the D6/D15 witnesses, scripted coincidences, full-queue, panicking-callback and handler-acts-at-add scenarios first; accept bursts (1, 2, 64, random) through the real "
+         "corpus of the D6/D15 witnesses, scripted coincidences, full-queue, panicking-callback, handler-acts-at-add and kick-handler scenarios first; accept bursts (1, 2, 64, random) through the real "
          "pomelo.StartAcceptor over a fake acceptor with a pre-filled connection channel, one P; tcp run: whole connections against the real TCPAcceptor on 127.0.0.1 (valid packet "
          "prefixes incl. one 300 kB message per 10 data packets, then nothing / truncated header / invalid type / short body / oversize announcement, then FIN; "
          "2 of 3 streams arrive in 2-4 pieces with 4 ms pauses, cut inside a header / between header and body / inside a body / anywhere; 1 connection in 4: a passive client "
-         "(well-formed script, then nothing / a complete malformed header / an incomplete header or body, no FIN) ended by the server's reader or by an owner-side kick, socket probed for release), final callback logs, "
+         "(well-formed script, then nothing / a complete malformed header / an incomplete header or body, no FIN) ended by the server's reader or by an owner-side kick, socket probed for release; 1 connection in 2: the owner is busy while the packets arrive), final callback logs, "
+         "route and payload of every handled message compared with what was sent under its id, "
          "every complete message after the handshake delivered, socket closed, goroutines released; a third as many connections with the same scripts through the "
          "real WSAcceptor (one packet per binary message; 1/3 with every message in two fragments; 1/6 with the last two packets glued into one message); two race ops per run (child process): 150-200 x tier scale "
          "sessions with 1-4 Close() calls + EOF + write failure arriving while the session's mutex is held, 300-400 x scale sessions with 2-8 + EOF + write "
